@@ -115,8 +115,10 @@ pub fn run_tamper(args: &[String]) {
             if seen.insert((j.subj, cls, j.kind)) { j.trace = true; }
         }
     }
+    start_watchdog(300);
     let results = par_map(&jobs, n_threads(), |_, j| {
         let s = &subs[j.subj];
+        watch(format!("mutation={} at {} | subject={}", j.kind, path_str(&j.path), s.id));
         let mut v = s.proof.clone();
         match j.kind {
             "delete" => { let (arr, idx) = (j.path[..j.path.len() - 1].to_vec(), match j.path.last().unwrap() { Seg::Idx(i) => *i, _ => 0 }); get_mut(&mut v, &arr).as_array_mut().unwrap().remove(idx); }
@@ -323,8 +325,10 @@ pub fn run_malformed(args: &[String]) {
         honest_mem.push((peak, maxreq));
         (used, 40 * s.size as u64 + 2000)
     }).collect();
+    start_watchdog(120);
     let results = par_map(&recs, n_threads(), |_, r| {
         let s = &subs[r.subj];
+        watch(format!("recipe={} | subject={}", r.label, s.id));
         let mut v = s.proof.clone();
         apply(&mut v, &r.edits);
         let p: StarkProof = match serde_json::from_value(v.clone()) { Ok(p) => p, Err(e) => return (json!({"tag":"undeserialisable","detail":format!("{e}")}), Vec::new()) };
